@@ -1,3 +1,43 @@
 (* Corr/C10.v -- C10 observes the same write as C01 (input, surviving tree incl. attrs["geff"], read-back);
-   its cases stress the caller-supplied metadata. *)
+   its cases stress the caller-supplied metadata.
+
+   Second case kind (IFull): the caller's FULL metadata as the keyword arguments of GeffMetadata (a JSON-like value, parsed by
+   Meta.construct exactly as pydantic does), the in-memory graph, the structure_validation flag; fresh MemoryStore.  Observed:
+   the exception class of write_arrays, or the complete document stored under attrs["geff"].  Model: the store model decides
+   success / the exception class (Write.write_arrays on the abstraction), the FULL pipeline MetaBridge.stored_doc gives the
+   document; documents are compared field by field up to member order (Json.jsim, JSON types distinguished). *)
+From Geff Require Export Meta.
 From Geff.Corr Require Export C01.
+From Geff Require Json MetaJson.
+From Geff Require Export MetaBridge.
+
+Inductive input :=
+| IOld (i : C01.input)
+| IFull (gv : string) (kw : Meta.jv) (g : wgraph) (validate : bool).
+Inductive obs :=
+| OOld (o : C01.obs)
+| OFull (r : res Meta.jv).
+
+Definition old_case (c : C01.input * C01.obs) : input * obs := (IOld (fst c), OOld (snd c)).
+
+Definition model (i : input) : obs :=
+  match i with
+  | IOld i0 => OOld (C01.model i0)
+  | IFull gv kw g v =>
+      match Meta.construct gv kw with
+      | Err e => OFull (Err e)
+      | Ok m =>
+          match snd (Write.run (write_arrays KObj g (abs I0 m) v false) None) with
+          | Err e => OFull (Err e)
+          | Ok _ => OFull (stored_doc g m)
+          end
+      end
+  end.
+
+Definition obs_eqb (a b : obs) : bool :=
+  match a, b with
+  | OOld x, OOld y => C01.obs_eqb x y
+  | OFull r, OFull s => res_eqb Json.jsim r s
+  | _, _ => false
+  end.
+Definition check (c : input * obs) : bool := obs_eqb (model (fst c)) (snd c).
